@@ -499,13 +499,11 @@ class Ref:
             r["lb"], r["ub"] = 0, 1000.0
         else:
             r["lb"], r["ub"] = -1000.0, 0
-        lhs_ids = {i for i, _ in op["lhs"]}
         mets = {}
         for i, c in op["lhs"]:
-            mets[MID[i]] = -float(c) if c != 1 else -1
+            mets[MID[i]] = mets.get(MID[i], 0) - c
         for i, c in op["rhs"]:
-            if i not in lhs_ids:
-                mets[MID[i]] = float(c) if c != 1 else 1
+            mets[MID[i]] = mets.get(MID[i], 0) + c  # net coefficient of a metabolite that occurs in several terms
         for mid in mets:
             if mid not in self.mets:
                 self.mets[mid] = new_met(mid, compartment=None)  # "unknown metabolite created": no compartment given
